@@ -11,7 +11,10 @@ Inductive case :=
 | CIso (t : Z) (iso : list Z) (back : option Z) (json_same : bool)
 | CUtc (ctor : Z) (fields : list (option Z)) (obs : option Z)
 | CSet (t : option Z) (ops : list (Z * list (option Z))) (obs : list (option Z))
-| CInvalid (all_nan : bool).
+| CInvalid (all_nan : bool)
+(* a Date made on one runtime, the runtime copied, a setter history run on ONE of the two:
+   the history behaves as on a single runtime and the other runtime's Date keeps its time value *)
+| CCopy (t : option Z) (ops : list (Z * list (option Z))) (obs : list (option Z)) (other_after : option Z).
 
 Definition oz_eqb := option_eqb Z.eqb.
 Definition loz_eqb := list_eqb oz_eqb.
@@ -46,4 +49,7 @@ Definition verdict (c : case) : Z * Z :=
       judge loz_eqb obs (dup (set_hist set_model t ops)) (dup (set_hist set_spec t ops))
             (hist_class t ops)
   | CInvalid b => judge Bool.eqb b true true 0
+  | CCopy t ops obs other =>
+      judge loz_eqb (other :: obs) (t :: dup (set_hist set_model t ops)) (t :: dup (set_hist set_spec t ops))
+            (hist_class t ops)
   end.
